@@ -99,6 +99,8 @@ def plan_C02(run):
 
 def plan_C03(run):
     n = q(run, 300, 6000)
+    # design level: the library's outcome pipeline equals the rule for every tagged vector up to length 3 (quick) or 5 (thorough)
+    mc.outcome(run, q(run, 3, 5))
     # every rank / score vector over mixed values, enumerated by TLC and replayed (C01's comparison then ties each to the rule)
     mc.lattice(run, "encodings", ALL_KINDS, ["default"], 3, q(run, 2, 3), style="encodings", want={"C03"}, group_orders="C03")
     campaign(run, "order-groups", {"C03"}, lambda s, r: drivers.order_groups(s, r, n))
@@ -281,6 +283,10 @@ def process_stage(run, count):
 
 
 def plan_C14(run):
+    pairs = [(a, b) for a in range(0, 31, 3) for b in range(0, 31, 3)] if run.tier == "thorough" else None
+    threads_stage(run, q(run, 60, 400), None)
+    if pairs:
+        threads_stage(run, 12, pairs)
     process_stage(run, q(run, 120, 2500))
     n = q(run, 150, 3000)
     campaign(run, "history-groups", {"C14"}, lambda s, r: drivers.same_groups(s, r, n))
@@ -373,3 +379,94 @@ PLANS = {
     "C19": plan_C19,
     "C20": plan_C20,
 }
+
+
+THREADS_CFG = """SPECIFICATION Spec
+INVARIANT AllConsumed
+POSTCONDITION Accepted
+CHECK_DEADLOCK FALSE
+"""
+
+MC_THREADS_CFG = """SPECIFICATION TSpec
+CONSTANTS
+  Threads = {%(threads)s}
+  MaxReads = %(reads)d
+  LimitSigmaWriteBack = %(defect)s
+  Constructed <- %(cons)s
+%(props)s
+CHECK_DEADLOCK FALSE
+"""
+
+
+def validate_thread_log(run, log, stage):
+    """Validate the totally ordered thread events against Threads.tla (TraceThreads.tla), sharded by execution."""
+    from concurrent.futures import ThreadPoolExecutor
+
+    execs = []
+    for e in log:
+        if e["ev"] == "reset":
+            execs.append([])
+        execs[-1].append(e)
+    nsh = max(1, min(tlc.NCPU, len(execs)))
+    shards = [execs[i::nsh] for i in range(nsh)]
+    jobs = []
+    for si, sh in enumerate(shards):
+        path = os.path.join(run.wd, "threads%03d.ndjson" % si)
+        evs = [e for x in sh for e in x]
+        with open(path, "w") as f:
+            for e in evs:
+                f.write(json.dumps(e, separators=(",", ":")) + "\n")
+        jobs.append((si, path, evs))
+
+    def one(job):
+        si, path, evs = job
+        rc, out = tlc.run_tlc("TraceThreads", THREADS_CFG, run.wd, env={"TRACE_FILE": path}, workers=1, heap="1500m")
+        return si, evs, rc, out
+
+    nev = 0
+    with ThreadPoolExecutor(max_workers=tlc.NCPU) as ex:
+        for si, evs, rc, out in ex.map(one, jobs):
+            err = tlc.tlc_error(out)
+            if rc != 0 or err:
+                raise MachineryError("TLC failed on thread shard %d: %s" % (si, err or out[-1500:]))
+            gen, dist = tlc.tlc_stats(out)
+            run.states += dist
+            run.transitions += gen
+            by_line = {v[1]: v for v in tlc.printed_values(out, "TV")}
+            for k, e in enumerate(evs):
+                if e["ev"] == "reset":
+                    continue
+                v = by_line.get(k + 1)
+                if v is None:
+                    raise MachineryError("thread shard %d: no verdict for line %d" % (si, k + 1))
+                nev += 1
+                fails = sorted(v[3])
+                if any(f.startswith("bind.") for f in fails):
+                    raise MachineryError("ill-formed thread trace: %s on %s" % (fails, e))
+                mine = [f for f in fails if f.startswith(run.prop + ".")]
+                if mine:
+                    x = e["x"]
+                    trace = [t for t in log if t["x"] == x]
+                    run.violations.append(({"op": "thread-event", "tid": x, "event": e}, mine, trace))
+    run.traces += len(execs)
+    run.evaluations += nev
+    run.class_counts.update({"thread_executions": len(execs), "thread_events": nev,
+                             "thread_reads": sum(1 for e in log if e["ev"] == "read")})
+    run.stage_info.append({"stage": stage, "thread_executions": len(execs), "thread_events": nev})
+
+
+def threads_stage(run, count, exhaustive_pairs=None):
+    import sched
+    # design level: every interleaving of 2-3 callers' threads on the shared model
+    for threads, reads in q(run, [("1, 2", 3), ("1, 2, 3", 2)], [("1, 2", 5), ("1, 2, 3", 3)]):
+        for cons in ("MCConstructed", "MCConstructedT"):
+            cfg = MC_THREADS_CFG % dict(threads=threads, reads=reads, defect="FALSE", cons=cons,
+                                        props="INVARIANT ResultIsSequential\nPROPERTY ModelReadOnly")
+            mc.run_mc(run, "MC_Threads", cfg, "threads-%s-%d-%s" % (threads.replace(", ", ""), reads, cons), emit=False)
+    # code level: real threads on a shared instrumented model under chosen schedules
+    sess = Session()
+    log = []
+    drivers.thread_executions(sess, run.sub_rng("threads"), count, log, exhaustive_pairs=exhaustive_pairs)
+    validate_thread_log(run, log, "thread-events")
+    validate_events(run, sched.regroup(sess.events), {"C14"}, "thread-results")
+    run.samples.append({"thread_events_of_one_execution": [(e["th"], e["ev"], e["attr"], e["value"]) for e in log[:60]]})
